@@ -976,7 +976,7 @@ func ModelInput(res *Result) string {
 		mode += "m"
 	}
 	mode += "/" + c.cbBits()
-	pre := linksField(g) + prologueField(res)
+	pre := linksField(g) + prologueField(res) + rflField(g)
 	if c.PreTag >= 0 && (c.Mode == "t" || c.Mode == "r") {
 		pre += fmt.Sprintf("pt=%d ", c.PreTag)
 	}
@@ -1028,6 +1028,41 @@ func prologueField(res *Result) string {
 	}
 	r0 := g.Nodes[c.Root]
 	return fmt.Sprintf("pr=%d:%d:%d:%s:%s:%d:%d:%d:%s ", b2i(c.RefFetch), c.Root, mapped, kind, cfg, ok, b2i(r0.IsManifest()), b2i(len(r0.Bytes) == 0), o)
+}
+
+// rflField runs the real removeForeignLayers (verif hook) on a copy of every node's successor
+// descriptors and renders the result for the in-Coq comparison with CopyLinks.remove_foreign_inplace:
+// rfl=<node>:<ids '+'-separated|->;...   (only nodes with successors)
+func rflField(g *dag.Graph) string {
+	var out []string
+	for _, n := range g.Nodes {
+		if len(n.Succ) == 0 {
+			continue
+		}
+		in := make([]ocispec.Descriptor, len(n.Succ))
+		for i, s := range n.Succ {
+			in[i] = g.Nodes[s].Desc
+		}
+		res := oras.VerifRemoveForeignLayers(in)
+		ids := make([]string, len(res))
+		for i, d := range res {
+			ids[i] = "?"
+			for _, m := range g.Nodes {
+				if m.Desc.Digest == d.Digest && m.Desc.MediaType == d.MediaType {
+					ids[i] = fmt.Sprint(m.ID)
+				}
+			}
+		}
+		o := strings.Join(ids, "+")
+		if o == "" {
+			o = "-"
+		}
+		out = append(out, fmt.Sprintf("%d:%s", n.ID, o))
+	}
+	if len(out) == 0 {
+		return ""
+	}
+	return "rfl=" + strings.Join(out, ";") + " "
 }
 
 // mtConst names a media type by the Go constant the code switches on ("-" = any other media type).
